@@ -144,7 +144,7 @@ Qed.
 
 Lemma trim_id s : no_edge_blank s -> trim s = s.
 Proof.
-  intros [H1 H2]. unfold trim. rewrite (drop_blank_id s H1). rewrite (drop_blank_id _ H2).
+  intros [H1 H2]. unfold trim. rewrite <- !rev_alt. rewrite (drop_blank_id s H1). rewrite (drop_blank_id _ H2).
   apply rev_involutive.
 Qed.
 
@@ -154,7 +154,7 @@ Proof. destruct s; intros H E; [contradiction|]. cbn in E. destruct (rev s); dis
 (* a trimmed string with one blank after it, or before it *)
 Lemma trim_blank_after s c : no_edge_blank s -> is_blank c = true -> trim (s ++ [c]) = s.
 Proof.
-  intros [H1 H2] Hc. unfold trim. destruct s as [|x r].
+  intros [H1 H2] Hc. unfold trim. rewrite <- !rev_alt. destruct s as [|x r].
   - cbn. rewrite Hc. reflexivity.
   - rewrite drop_blank_app_id by (congruence || exact H1).
     rewrite rev_app_distr. cbn [rev app]. cbn [drop_blank]. rewrite Hc.
@@ -163,6 +163,6 @@ Proof.
 Qed.
 Lemma trim_blank_before s c : no_edge_blank s -> is_blank c = true -> trim (c :: s) = s.
 Proof.
-  intros [H1 H2] Hc. unfold trim. cbn [drop_blank]. rewrite Hc.
+  intros [H1 H2] Hc. unfold trim. rewrite <- !rev_alt. cbn [drop_blank]. rewrite Hc.
   rewrite (drop_blank_id s H1). rewrite (drop_blank_id _ H2). apply rev_involutive.
 Qed.
